@@ -69,6 +69,12 @@ func c15Fixed() [][]c15step {
 		// Tgetattr answered ENOENT afterwards means a File left at its old path.
 		s(R(wire.Tattach, u(0), nf, "u", "", u(wire.NOUID)), R(wire.Twalk, u(0), u(1), []string{"a", "b", "f"}), R(wire.Twalk, u(0), u(2), []string{"a", "g"}), R(wire.Twalk, u(0), u(3), []string{"a", "l"}), R(wire.Twalk, u(0), u(4), []string{"a", "b"}),
 			R(wire.Trenameat, u(0), "a", u(0), "z"), R(wire.Tgetattr, u(1), u(0x3fff)), R(wire.Tgetattr, u(3), u(0x3fff))),
+		// a rename ONTO an entry somebody holds a fid on (and a Trename likewise):
+		// if the backend refuses it, that fid is what it was - it can still be
+		// opened, walked from, written through
+		s(R(wire.Tattach, u(0), nf, "u", "", u(wire.NOUID)), R(wire.Twalk, u(0), u(1), []string{"a", "g"}), R(wire.Twalk, u(0), u(2), []string{"a"}), R(wire.Twalk, u(0), u(3), []string{"d"}), R(wire.Twalk, u(0), u(4), []string{"f"}),
+			R(wire.Trenameat, u(0), "f", u(2), "g"), R(wire.Tlopen, u(1), u(2)), R(wire.Twrite, u(1), u(0), []byte("x")),
+			R(wire.Trename, u(4), u(0), "d"), R(wire.Twalk, u(3), u(1), []string{}), R(wire.Tmkdir, u(3), "sub", u(0755), u(0))),
 	}
 }
 
